@@ -415,6 +415,7 @@ class World:
             inversion=self.opt(s.get("inversion")),
             use_mask_in_fit=bool(s.get("use_mask_in_fit", False)),
             dataset_model=dm,
+            noise_map=self.opt(s.get("noise_map")),
         )
 
     def _b_mapper_valued(self, s):
